@@ -1,13 +1,14 @@
 //@@ unit props=C04,C06,C20
-// Unit ods: src/ods.rs get_range (C04 mechanism), verbatim text.
+// Unit ods: src/ods.rs get_range (the mechanism of C04) and is_empty_row, verbatim text.
 #![allow(unused_imports, dead_code, unused_variables, unused_mut, unused_assignments)]
 use vstd::prelude::*;
-use std::slice::Windows;
+use vstd::std_specs::iter::IteratorSpec;
+use vstd::std_specs::cmp::PartialEqSpec;
+use std::slice::{Windows, Iter};
 use std::iter::{Enumerate, Skip, Take, Zip};
 
 verus! {
 
-//@@ item src/lib.rs trait "trait CellType"
 //@@ item src/lib.rs struct Range
 
 // TRUSTED: `#[derive(Default)]` on `struct Range<T>` (src/lib.rs; the derive expansion itself is outside Verus' subset):
@@ -20,12 +21,117 @@ impl<T: Default> Default for Range<T> {
     }
 }
 
+// ---------------------------------------------------------------------------------------------------------------
+// cell type: the default value, and the laws every CellType of the crate (Data, DataRef, String, usize) obeys
+// ---------------------------------------------------------------------------------------------------------------
+pub open spec fn dflt<T: Default>() -> T { choose|d: T| call_ensures(T::default, (), d) }
+// TRUSTED (as a hypothesis of the functional clauses, never assumed silently): `clone` returns an equal value, `default` is
+// deterministic, `==` is structural equality.
+pub open spec fn lawful<T: Default + Clone + PartialEq>() -> bool {
+    &&& forall|a: T, b: T| call_ensures(T::clone, (&a,), b) ==> a == b
+    &&& forall|a: T, b: T| call_ensures(T::default, (), a) && call_ensures(T::default, (), b) ==> a == b
+    &&& T::obeys_eq_spec()
+    &&& forall|a: T, b: T| #[trigger] a.eq_spec(&b) <==> (a == b)
+}
+
+// ---------------------------------------------------------------------------------------------------------------
+// assumed std behaviour (A-std / A-chunks)
+// ---------------------------------------------------------------------------------------------------------------
+#[verifier::external_type_specification] #[verifier::external_body] #[verifier::reject_recursive_types(T)]
+pub struct ExWindows<'a, T: 'a>(Windows<'a, T>);
+#[verifier::external_type_specification] #[verifier::external_body] #[verifier::reject_recursive_types(I)]
+pub struct ExEnumerate<I>(Enumerate<I>);
+
+/// `r` is the sequence of all contiguous windows of length n of s, in order (empty if s is shorter than n)
+pub open spec fn win_ok<T>(s: Seq<T>, n: int, r: Seq<&[T]>) -> bool {
+    r.len() == (if s.len() >= n { s.len() - n + 1 } else { 0 })
+    && forall|i: int| 0 <= i < r.len() ==> (#[trigger] r[i])@ == s.subrange(i, i + n)
+}
+// TRUSTED: core::slice::windows doc: "Returns an iterator over all contiguous windows of length size. The windows overlap.
+// If the slice is shorter than size, the iterator returns no values. Panics if size is zero."
+pub assume_specification<'a, T>[ <[T]>::windows ](s: &'a [T], n: usize) -> (r: Windows<'a, T>)
+    requires n != 0,
+    ensures r.obeys_prophetic_iter_laws(), win_ok(s@, n as int, r.remaining());
+
+/// `s` is the sequence of values behind the references `rem`
+pub open spec fn vals_of<T>(rem: Seq<&T>, s: Seq<T>) -> bool {
+    rem.len() == s.len() && forall|i: int| 0 <= i < rem.len() ==> *(#[trigger] rem[i]) == s[i]
+}
+// TRUSTED: Iterator::position doc: "Searches for an element in an iterator, returning its index. [...] applies the closure to
+// each element; if one of them returns true, position() returns Some(index). If all of them return false, it returns None.
+// position() is short-circuiting". (Stated over any value sequence `s` behind the remaining references so that callers
+// holding only the slice can use it.)
+pub assume_specification<'a, T, P: FnMut(&'a T) -> bool>[ <Iter<'a, T> as Iterator>::position::<P> ](it: &mut Iter<'a, T>, p: P) -> (r: Option<usize>)
+    where Iter<'a, T>: Sized
+    requires
+        forall|x: &'a T| call_requires(p, (x,)),
+    ensures
+        r is Some ==> r->Some_0 < old(it).remaining().len() && call_ensures(p, (old(it).remaining()[r->Some_0 as int],), true),
+        forall|s: Seq<T>, j: int| vals_of(old(it).remaining(), s) && 0 <= j < s.len() && (r is Some ==> j < r->Some_0)
+            ==> call_ensures(p, (&#[trigger] s[j],), false);
+// TRUSTED: the body is the real expression `row.iter().rposition(closure)`, moved into a function: `slice::Iter::rposition` carries the
+// where-clause `Self: ExactSizeIterator + DoubleEndedIterator`, with which Verus resolves the path to the (unspecifiable) provided trait
+// method.  Iterator::rposition doc: "Searches for an element in an iterator from the right, returning its index. [...] if one of them
+// returns true, then rposition() returns Some(index). If all of them return false, it returns None. rposition() is short-circuiting".
+#[verifier::external_body]
+fn verif_rposition<'a, T, P: FnMut(&'a T) -> bool>(s: &'a [T], p: P) -> (r: Option<usize>)
+    requires
+        forall|x: &'a T| call_requires(p, (x,)),
+    ensures
+        r is Some ==> r->Some_0 < s@.len() && call_ensures(p, (&s@[r->Some_0 as int],), true),
+        forall|j: int| 0 <= j < s@.len() && (r is Some ==> j > r->Some_0) ==> call_ensures(p, (&#[trigger] s@[j],), false),
+{
+    s.iter().rposition(p)
+}
+
+/// sum of the first n elements
+pub open spec fn rep_sum(s: Seq<usize>, n: int) -> int
+    decreases n
+{
+    if n <= 0 { 0 } else { rep_sum(s, n - 1) + s[n - 1] }
+}
+pub open spec fn imin(a: int, b: int) -> int { if a < b { a } else { b } }
+
+// TRUSTED: the body is the real expression `rows_repeats.iter().take(i).sum::<usize>()`, moved into a function because Verus has no
+// `assume_specification` for provided trait methods (`Iterator::sum`).  Iterator::take doc: "yields the first n elements, or fewer if
+// the underlying iterator ends sooner"; Iterator::sum doc: "Sums the elements of an iterator. [...] When calling sum() and a primitive
+// integer type is being returned, this method will panic if the computation overflows and overflow checks are enabled."
+#[verifier::external_body]
+fn verif_sum_take(s: &[usize], n: usize) -> (r: usize)
+    requires
+        rep_sum(s@, imin(n as int, s@.len() as int)) <= usize::MAX,
+    ensures
+        r == rep_sum(s@, imin(n as int, s@.len() as int)),
+{
+    s.iter().take(n).sum::<usize>()
+}
+
+// TRUSTED: the body is the real expression `cols.windows(2).enumerate()`, moved into a function because Verus has no
+// `assume_specification` for provided trait methods (`Iterator::enumerate`).  Iterator::enumerate doc: "Creates an iterator which gives
+// the current iteration count as well as the next value. The iterator returned yields pairs (i, val)".
+#[verifier::external_body]
+fn verif_windows_enumerate<'a, T>(s: &'a [T], n: usize) -> (r: Enumerate<Windows<'a, T>>)
+    requires n != 0,
+    ensures
+        r.obeys_prophetic_iter_laws(),
+        exists|w: Seq<&[T]>| win_ok(s@, n as int, w) && r.remaining().len() == w.len()
+            && forall|i: int| 0 <= i < w.len() ==> (#[trigger] r.remaining()[i]).0 == i && r.remaining()[i].1 == w[i],
+{
+    s.windows(n).enumerate()
+}
+
 //@@ fn src/ods.rs is_empty_row ret=r
 //@@ end
 
 //@@ fn src/ods.rs get_range props=C04 ret=r
 //@@ r6 0
 //@@ r6 1
+//@@ replace /cols\.windows\(2\)\.enumerate\(\)/ Verus cannot attach a specification to the provided trait method Iterator::enumerate; the expression is moved verbatim into the trusted wrapper verif_windows_enumerate
+verif_windows_enumerate(cols, 2)
+//@@ replace /rows_repeats\.iter\(\)\.take\(i\)\.sum::<usize>\(\)/ Verus cannot attach a specification to the provided trait method Iterator::sum; the expression is moved verbatim into the trusted wrapper verif_sum_take
+verif_sum_take(rows_repeats, i)
+//@@ replace /row\.iter\(\)\.rposition\(/ slice::Iter::rposition cannot be given an assume_specification (its where-clause makes the path resolve to the provided trait method); the call is moved verbatim into the trusted wrapper verif_rposition
+verif_rposition(row, 
 //@@ end
 
 } // verus!
